@@ -293,11 +293,11 @@ def custom(P, tier, seed, replay=None):
 P = {
     "id": PID,
     "claimed": True,
-    "coq_targets": ["Base/Locks.vo", "C07/Model.vo", "C07/Lin.vo", "C07/Proofs.vo", "Gen/RepoSkel.vo", "C07/Repo.vo", "Properties/C07.vo",
+    "coq_targets": ["Base/Locks.vo", "C07/Model.vo", "C07/Lin.vo", "C07/Proofs.vo", "C07/Examples.vo", "Gen/RepoSkel.vo", "C07/Repo.vo", "Properties/C07.vo",
                     "Run/Eval_C07.vo"],
     "theorems_module": "Properties.C07",
     "theorems": ["C07_no_crash", "C07_drf", "C07_mutual_exclusion", "C07_deadlock_free", "C07_linearizable",
-                 "C07_readers_see_committed_state", "C07_no_lost_update", "C07_seq_spec_total", "C07_repo_safe",
+                 "C07_readers_see_committed_state", "C07_real_time_order", "C07_no_lost_update", "C07_seq_spec_total", "C07_check_is_needed", "C07_nonvacuous", "C07_repo_safe",
                  "C07_repo_linearizable"],
     "streams": [STREAM],
     "generators": [gen_skel],
